@@ -205,6 +205,10 @@ pub fn run(mut run: Run) -> i32 {
                 match res {
                     Err(p) => acc.viol(format!("{} panic", what), idx, || json!({"ring": format!("{:?}", inp), "epsilon": e, "panic": p})),
                     Ok(o) => {
+                        if o.interiors().len() != 1 {
+                            acc.viol(format!("{} changed the number of interior rings", what), idx, || json!({"ring": format!("{:?}", inp), "epsilon": e, "output": format!("{:?}", o)}));
+                            continue;
+                        }
                         for (rname, r) in [("exterior", o.exterior()), ("interior", &o.interiors()[0])] {
                             let oc = coords_of(r);
                             if !r.is_closed() {
